@@ -43,8 +43,8 @@ EBLOCKS = ('', '', '', 'extension', 'restriction', 'substitution', '#all', 'rest
 
 
 def plan(tier, seed):
-    n = 120 if tier == 'quick' else 4000
-    shards = 12 if tier == 'quick' else 48
+    n = 320 if tier == 'quick' else 4000
+    shards = 16 if tier == 'quick' else 48
     specs = [{'kind': 'hier', 'n': n // shards, 'hshard': s} for s in range(shards)]
     specs.append({'kind': 'alt', 'n': 40 if tier == 'quick' else 600})
     return specs
